@@ -1,9 +1,10 @@
 // C11 impl driver for Dune::BitSetVector<bs> (public interface only).
 // ops: rsz:n:v cl sall uall set:i:j:v flip:i:j bset:i breset:i bflip:i abool:i:v abits:i:<bits> ablk:i:k
 //      and|or|xor:i:<bits>   andb|orb|xorb:i:k   shl:i:k  shr:i:k       (<bits>: character j = bit j)
-// observation per step: size()[block,block,...]c<count()> m<countmasked(0)>,<countmasked(1)>,...
+// observation per step: size()[block,block,...]c<count()> m<countmasked(0)>,<countmasked(1)>,... q<count any none all ==next ~bits per block>,...
 #include <config.h>
 #include <dune/common/bitsetvector.hh>
+#include <dune/common/exceptions.hh>
 #include <bitset>
 #include "c11_common.hh"
 
@@ -65,6 +66,14 @@ static void run(const std::vector<std::string>& ops)
     s += "]c" + std::to_string(cv.count()) + " m";
     if (cv.count() != total) flags += "!cnt";
     for (int j = 0; j < bs; ++j) { if (j) s += ","; s += std::to_string(cv.countmasked(j)); }
+    s += " q";                                                       // per block: count() any() none() all() of the const proxy
+    for (std::size_t i = 0; i < cv.size(); ++i) {
+      auto r = cv[(int) i];
+      if (i) s += ",";
+      s += std::to_string(r.count()) + (r.any() ? "1" : "0") + (r.none() ? "1" : "0") + (r.all() ? "1" : "0");
+      s += (r == cv[(int) ((i + 1) % cv.size())]) ? "1" : "0";      // reference == reference (cyclically next block)
+      BS inv = ~r; s += "~"; for (int j = 0; j < bs; ++j) s += inv.test(j) ? '1' : '0';
+    }
     // the mutable proxy / mutable iterator / mutable back() read the same bits; constructors reproduce the same vector
     {
       std::size_t bi = 0; std::vector<bool> flat;
@@ -84,6 +93,11 @@ static void run(const std::vector<std::string>& ops)
       else for (std::size_t i = 0; i < cv.size(); ++i)
         if (!(fromflat[(int) i] == cv[(int) i]) || sized[(int) i].any() || !filled[(int) i].all()) { flags += "!ctor"; break; }
       if (sized.count() != 0 || filled.count() != cv.size() * bs) flags += "!ctorcnt";
+      if (bs > 1) {                                                  // documented rejection: size no multiple of the block size
+        std::vector<bool> odd(flat); odd.push_back(true); bool thrown = false;
+        try { BV bad(odd); } catch (Dune::RangeError&) { thrown = true; }
+        if (!thrown) flags += "!ctorthrow";
+      }
       std::ostringstream os; os << cv; std::string exp;
       for (std::size_t i = 0; i < cv.size(); ++i) { exp += "("; for (int j = 0; j < bs; ++j) exp += cv[(int) i].test(j) ? "1" : "0"; exp += ")  "; }
       if (os.str() != exp) flags += "!print";
